@@ -3,7 +3,7 @@
 import sys, os, json
 sys.path.insert(0, os.path.dirname(os.path.dirname(os.path.abspath(__file__))))
 from selftest.mutate import overlay_for
-from check import run_property
+from check import decide_property as run_property
 kind, prop, rel, old, new = sys.argv[1:6]
 within = sys.argv[6] if len(sys.argv) > 6 else None
 ov = overlay_for('/repo', rel, old, new, within)
